@@ -354,8 +354,19 @@ def c_wrapper(which):
         before = snap(vr, nets, machine, cons, keys, va)
         with warnings.catch_warnings():
             warnings.simplefilter("ignore")
-            res = W.wrapper(vr, va, nets, keys, machine, cons,
-                            place=hilbert.place)
+            if which == 0:
+                res = W.wrapper(vr, va, nets, keys, machine, cons,
+                                place=hilbert.place)
+            elif which == 1:
+                # no monitor reservation: the caller's constraint list is
+                # still only read
+                res = W.wrapper(vr, va, nets, keys, machine, cons,
+                                reserve_monitor=False, align_sdram=True,
+                                place=hilbert.place)
+            else:
+                res = W.wrapper(vr, va, nets, keys, machine,
+                                reserve_monitor=False, align_sdram=True,
+                                place=hilbert.place)
         after = snap(vr, nets, machine, cons, keys, va)
         return canon(res), ([] if before == after else ["arguments"])
     return f
@@ -412,6 +423,8 @@ def call_table():
         ("boot_plain", c_boot(1)),
         ("boot_dict", c_boot(2)),
         ("wrapper", c_wrapper(0)),
+        ("wrapper_nomon", c_wrapper(1)),
+        ("wrapper_defcons", c_wrapper(2)),
         ("machine", c_machine()),
     ]
     return t
